@@ -68,9 +68,20 @@ func (g *Gen) call(fr *frame, st *State, site ssa.Instruction, cc *ssa.CallCommo
 	if g.mutexOp(st, key, args) {
 		return &Value{T: rt}
 	}
-	if fr.fc != nil && len(fr.fc.AtCall) > 0 {
+	if fr.fc != nil && len(fr.fc.AtCall) > 0 && len(fr.fc.AtCall[shortName(key)]) > 0 {
+		// the callee's parameter names denote the actual arguments of this call
+		avars := map[string]*Value{}
+		cfc := g.W.C.Funcs[key]
+		if cfc == nil {
+			cfc = &FuncContract{}
+		}
+		for k, n := range g.paramNames(cfc, callee, cc, len(args)) {
+			if k < len(args) {
+				avars[n] = args[k]
+			}
+		}
 		for i, cl := range fr.fc.AtCall[shortName(key)] {
-			env := &Env{g: g, st: st, old: fr.old, vars: map[string]*Value{}, fr: fr, pkgPath: fr.fn.Pkg.Pkg.Path(), inBody: true}
+			env := &Env{g: g, st: st, old: fr.old, vars: map[string]*Value{}, fr: fr, pkgPath: fr.fn.Pkg.Pkg.Path(), inBody: true, bound: avars}
 			g.addOblig(st, "assert", fmt.Sprintf("at.%s.%s", shortName(key), clauseName(cl, i)), env.evalBool(cl.E), cl.Src)
 		}
 	}
@@ -281,6 +292,7 @@ func (g *Gen) applyContract(fr *frame, st *State, fc *FuncContract, key string, 
 		}
 		g.assume(st, t)
 	}
+	g.applyGhostSets(fc, st, pre, post, pkgPath)
 	return res
 }
 
@@ -1207,4 +1219,36 @@ func (g *Gen) stableComps() map[string]bool {
 		g.note("field assumed to be written only at construction: " + g.fc.StableSrc[i])
 	}
 	return g.stableKeys
+}
+
+// applyGhostSets performs the ghost assignments of a contract (ghost_set name = expr) at the return point.
+func (g *Gen) applyGhostSets(fc *FuncContract, st, old *State, vars map[string]*Value, pkgPath string) {
+	for _, gs := range fc.GhostSets {
+		gv, ok := g.W.C.Ghosts[gs.Name]
+		if !ok {
+			g.errorf("ghost_set: unknown ghost variable %s", gs.Name)
+			continue
+		}
+		env := &Env{g: g, st: st, old: old, vars: vars, pkgPath: pkgPath}
+		v := env.eval(gs.E)
+		t, err := env.ghostType(gv)
+		if err != nil {
+			g.errorf("ghost_set %s: %v", gs.Name, err)
+			continue
+		}
+		sh := g.W.shapes.shape(t)
+		if isNilVal(v) {
+			v = g.zeroValue(t)
+		}
+		if len(v.L) != len(sh) {
+			g.errorf("ghost_set %s: value has %d leaves, variable has %d", gs.Name, len(v.L), len(sh))
+			continue
+		}
+		for i, l := range sh {
+			key := "G|" + gv.Name + "|" + l.Path
+			g.compTerm(st, key, l.Sort)
+			g.setComp(st, key, l.Sort, v.L[i])
+			g.logWrite(key, "")
+		}
+	}
 }
